@@ -51,7 +51,7 @@ func (fa *ForAll) inFn(fn *ssa.Function, acc Accept) forAllMemo {
 		fa.memo = map[string]forAllMemo{}
 		fa.seen = map[string]bool{}
 	}
-	key := FuncKey(fn) + "|" + acc.Kind
+	key := FuncKey(fn) + "|" + acc.Kind + bindingSig(fn)
 	if m, ok := fa.memo[key]; ok {
 		return m
 	}
@@ -123,7 +123,8 @@ func (fa *ForAll) OnAccept(fn *ssa.Function, acc Accept) mpResult {
 			if !ok {
 				return false
 			}
-			m := fa.inFn(g, ga)
+			var m forAllMemo
+			bindCall(c, g, func() { m = fa.inFn(g, ga) })
 			if m.found && !m.holds {
 				loopDetails = append(loopDetails, m.detail)
 			}
